@@ -60,9 +60,13 @@ pub fn read_graphml_string(string: &str, specs: GraphSpecs) -> Result<Graph<Stri
     let mut edges: Vec<Arc<Edge<String, ()>>> = vec![];
     let mut last_element_name: String = "".to_string();
     let mut edge_weight_attr_name = "weight".to_string();
+    let mut expect_weight_text = false;
     loop {
         #[cfg(feature = "verif-hooks")]
         crate::verif_hooks::tick("graphml_event");
+        // only the event that directly follows a weight <data> start tag can be the weight
+        let weight_text_expected = expect_weight_text;
+        expect_weight_text = false;
         match reader.read_event_into(&mut buf) {
             Ok(Event::Empty(ref e)) => match e.name().as_ref() {
                 b"graph" => {
@@ -116,33 +120,30 @@ pub fn read_graphml_string(string: &str, specs: GraphSpecs) -> Result<Graph<Stri
                         if attrs.contains_key("key") {
                             let key = attrs.get("key").unwrap();
                             if key == &edge_weight_attr_name {
-                                let mut buf = Vec::new();
-                                match reader.read_event_into(&mut buf) {
-                                    Ok(Event::Text(e)) => match last_element_name.as_str() {
-                                        "edge" => {
-                                            let weight = match e.unescape() {
-                                                Ok(text) => text.parse::<f64>().ok(),
-                                                Err(_) => None,
-                                            };
-                                            match (weight, edges.last_mut()) {
-                                                (Some(weight), Some(edge)) => {
-                                                    Arc::make_mut(edge).weight = weight;
-                                                }
-                                                _ => {
-                                                    return Err(get_read_error(
-                                                        "an edge weight is not a valid number",
-                                                    ));
-                                                }
-                                            }
-                                        }
-                                        _ => (),
-                                    },
-                                    _ => (),
-                                }
+                                // the weight is the text that directly follows; it is picked up
+                                // by the main loop so that no other event is consumed here
+                                expect_weight_text = true;
+                                continue;
                             }
                         }
                     }
                     _ => (),
+                }
+            }
+            Ok(Event::Text(e)) => {
+                if weight_text_expected && last_element_name == "edge" {
+                    let weight = match e.unescape() {
+                        Ok(text) => text.parse::<f64>().ok(),
+                        Err(_) => None,
+                    };
+                    match (weight, edges.last_mut()) {
+                        (Some(weight), Some(edge)) => {
+                            Arc::make_mut(edge).weight = weight;
+                        }
+                        _ => {
+                            return Err(get_read_error("an edge weight is not a valid number"));
+                        }
+                    }
                 }
             }
             Ok(Event::Eof) => break, // exits the loop when reaching end of file
